@@ -3,6 +3,7 @@ package rules
 import (
 	"fmt"
 	"go/constant"
+	"go/token"
 	"go/types"
 	"sort"
 	"strings"
@@ -480,4 +481,220 @@ func runC01(c *core.Ctx) {
 
 	c.Rule("C01.freshslot", freshSlotText, 6)
 	checkFreshSlot(c)
+
+	c.Rule("C01.begincopy", beginCopyText, 3)
+	checkBeginCopy(c)
+
+	c.Rule("C01.finishhook", finishHookText, 10)
+	checkFinishHook(c)
+
+	c.Rule("C01.intcompare", "deep equality compares integers in the domain they were read in: in datamodel.DeepEqual (helpers expanded) no operand of an integer ==/!= derives from a conversion between a signed and an unsigned integer type applied to what AsInt / AsUint returned (after such a conversion -1 and 2^64-1, or MinInt64 and 2^63, compare equal although the abstract values differ)", 1)
+	if fn := p.Func("datamodel", "", "DeepEqual"); fn != nil {
+		isIntT := func(t types.Type) (signed, ok bool) {
+			b, isB := t.Underlying().(*types.Basic)
+			if !isB || b.Info()&types.IsInteger == 0 {
+				return false, false
+			}
+			return b.Info()&types.IsUnsigned == 0, true
+		}
+		bad := ""
+		pos := fn.Pos()
+		ncmp := 0
+		core.InstrsR(fn, func(in ssa.Instruction) {
+			bo, ok := in.(*ssa.BinOp)
+			if !ok || (bo.Op != token.EQL && bo.Op != token.NEQ) {
+				return
+			}
+			if _, isInt := isIntT(bo.X.Type()); !isInt {
+				return
+			}
+			fromAs := false
+			conv := false
+			for _, opnd := range []ssa.Value{bo.X, bo.Y} {
+				for w := range core.BackSlice(opnd, core.SliceOpts{Stores: true}) {
+					switch x := w.(type) {
+					case *ssa.Call:
+						if x.Call.IsInvoke() && (x.Call.Method.Name() == "AsInt" || x.Call.Method.Name() == "AsUint") {
+							fromAs = true
+						}
+					case *ssa.Convert:
+						s1, ok1 := isIntT(x.X.Type())
+						s2, ok2 := isIntT(x.Type())
+						if ok1 && ok2 && s1 != s2 {
+							conv = true
+						}
+					}
+				}
+			}
+			if !fromAs {
+				return
+			}
+			ncmp++
+			if conv {
+				bad = "an integer comparison's operand went through a signed/unsigned conversion"
+				pos = bo.Pos()
+			}
+		})
+		c.Check(ncmp > 0 && bad == "", "datamodel.DeepEqual#int-compare-domain", p.Pos(pos), "integers are compared as read", bad+": values that differ as integers (-1 and 18446744073709551615) compare equal")
+	} else {
+		c.Undecided("datamodel.DeepEqual", "-", "not found")
+	}
+}
+
+const beginCopyText = "sibling agreement between the two ways a fresh recursive assembler is started: for every type that is both a NodeAssembler and a MapAssembler/ListAssembler, whatever storage its BeginMap/BeginList sets up before entries can be added (a map made with make, a node allocated - on every returning path of the Begin method) is also set up on every path of its AssignNode that goes on to add entries through the assembler's own AssembleKey/AssembleValue/AssembleEntry - by calling that Begin method or making the same stores - so that copying a node of another implementation in does not write into storage that was never allocated"
+
+// checkBeginCopy decides C01.begincopy.
+func checkBeginCopy(c *core.Ctx) {
+	p := c.P
+	naI := p.Iface("datamodel", "NodeAssembler")
+	maI := p.Iface("datamodel", "MapAssembler")
+	laI := p.Iface("datamodel", "ListAssembler")
+	if naI == nil || maI == nil || laI == nil {
+		c.Undecided("datamodel#assembler-interfaces", "-", "NodeAssembler/MapAssembler/ListAssembler not found")
+		return
+	}
+	// what a Begin method establishes - (kind, field) pairs
+	setupsOf := func(fn *ssa.Function) []fieldSetup {
+		var out []fieldSetup
+		core.InstrsR(fn, func(in ssa.Instruction) {
+			st, ok := in.(*ssa.Store)
+			if !ok {
+				return
+			}
+			id, _, ok := core.FieldOfAddr(st.Addr)
+			if !ok {
+				return
+			}
+			kind := ""
+			switch v := core.Strip(st.Val).(type) {
+			case *ssa.MakeMap:
+				kind = "makemap"
+			case *ssa.Alloc:
+				if v.Heap {
+					kind = "alloc"
+				}
+			}
+			if kind == "" {
+				return
+			}
+			// only what Begin does on every path that returns: a store under a condition (allocate the node if the
+			// parent has not provided one) says nothing about an assembler for which the condition is false
+			if _, skipped := core.Reach(fn, nil, func(x ssa.Instruction) bool { _, isRet := x.(*ssa.Return); return isRet }, nil, func(x ssa.Instruction) bool { return x == ssa.Instruction(st) }); skipped {
+				return
+			}
+			out = append(out, fieldSetup{kind, id})
+		})
+		return out
+	}
+	for _, im := range p.Implementers(naI, libraryPkg) {
+		T := im.Type()
+		for _, rec := range []struct {
+			iface *types.Interface
+			begin string
+			steps []string
+		}{{maI, "BeginMap", []string{"AssembleKey", "AssembleValue", "AssembleEntry"}}, {laI, "BeginList", []string{"AssembleValue"}}} {
+			if !types.Implements(T, rec.iface) {
+				continue
+			}
+			begin, assign := p.Method(T, rec.begin), p.Method(T, "AssignNode")
+			if begin == nil || assign == nil || len(begin.Blocks) == 0 || len(assign.Blocks) == 0 || begin.Synthetic != "" || assign.Synthetic != "" {
+				continue
+			}
+			need := setupsOf(begin)
+			key := core.TypeString(im.Named) + "#AssignNode-" + rec.begin
+			if len(need) == 0 {
+				c.Info(key, p.Pos(assign.Pos()), rec.begin+" sets up no storage unconditionally (no made map, no allocation on every path)")
+				continue
+			}
+			recv := assign.Params[0]
+			onSelf := func(ci ssa.CallInstruction, names ...string) bool {
+				cal := ci.Common().StaticCallee()
+				if cal == nil || cal.Signature.Recv() == nil || len(ci.Common().Args) == 0 {
+					return false
+				}
+				hit := false
+				for _, n := range names {
+					if cal.Name() == n {
+						hit = true
+					}
+				}
+				if !hit {
+					return false
+				}
+				a := ci.Common().Args[0]
+				return core.Strip(a) == ssa.Value(recv) || core.SameValue(a, recv)
+			}
+			// barrier: the Begin method on the same assembler, or every store Begin would have made
+			isBegin := func(in ssa.Instruction) bool {
+				if ci, ok := in.(ssa.CallInstruction); ok && onSelf(ci, rec.begin) {
+					return true
+				}
+				return false
+			}
+			var steps []ssa.CallInstruction
+			for _, ci := range core.CallsR(assign) {
+				if onSelf(ci, rec.steps...) {
+					steps = append(steps, ci)
+				}
+			}
+			if len(steps) == 0 {
+				c.Info(key, p.Pos(assign.Pos()), "AssignNode does not add entries through the assembler's own steps")
+				continue
+			}
+			ok := true
+			var wit []string
+			pos := assign.Pos()
+			for _, stp := range steps {
+				// equivalent stores on the way count setup by setup: block paths that made all of them
+				path, reached := core.Reach(assign, nil, isTarget(stp), nil, func(in ssa.Instruction) bool {
+					return isBegin(in)
+				})
+				if reached && !storesAllSetups(assign, stp, need) {
+					ok = false
+					wit = p.Witness(path)
+					pos = stp.Pos()
+				}
+			}
+			var kinds []string
+			for _, s := range need {
+				kinds = append(kinds, s.kind)
+			}
+			c.Check(ok, key, p.Pos(pos), "the copy path sets up what "+rec.begin+" sets up before adding entries", "AssignNode can add entries through its own "+strings.Join(rec.steps, "/")+" without "+rec.begin+" having run on this assembler: the storage "+rec.begin+" sets up ("+strings.Join(kinds, ", ")+") was never allocated - copying a node of another implementation writes into a nil map or through a nil node pointer", wit...)
+		}
+	}
+}
+
+// fieldSetup: a store that prepares storage - kind "makemap" (a made map) or "alloc" (a fresh heap allocation).
+type fieldSetup struct {
+	kind  string
+	field core.FieldID
+}
+
+// storesAllSetups: on every path from fn's entry to target, each setup store (a made map / a fresh allocation stored to
+// the field) has been executed.
+func storesAllSetups(fn *ssa.Function, target ssa.CallInstruction, need []fieldSetup) bool {
+	for _, s := range need {
+		s := s
+		does := func(in ssa.Instruction) bool {
+			st, ok := in.(*ssa.Store)
+			if !ok {
+				return false
+			}
+			id, _, ok := core.FieldOfAddr(st.Addr)
+			if !ok || id != s.field {
+				return false
+			}
+			switch v := core.Strip(st.Val).(type) {
+			case *ssa.MakeMap:
+				return s.kind == "makemap"
+			case *ssa.Alloc:
+				return s.kind == "alloc" && v.Heap
+			}
+			return false
+		}
+		if _, reached := core.Reach(fn, nil, isTarget(target), nil, does); reached {
+			return false
+		}
+	}
+	return true
 }
